@@ -49,7 +49,12 @@ class StatePreparationChannel(raw_types.Gate):
         if 2**n != target_state.shape[0]:
             raise ValueError(f'Matrix width ({target_state.shape[0]}) is not a power of 2')
 
-        self._state = target_state.astype(np.complex128) / np.linalg.norm(target_state)
+        norm = np.linalg.norm(target_state)
+        self._state = target_state.astype(np.complex128)
+        if abs(norm - 1) > 1e-12:
+            # (Dividing an already normalized state by its norm again can change the last bit: the
+            # gate read back from its JSON or repr would not equal the one that was written.)
+            self._state = self._state / norm
         self._num_qubits = n
         self._name = name
         self._qid_shape = (2,) * n
